@@ -29,4 +29,11 @@ EOF
   echo "$id $prop ${verdict:-NONE}"
 }
 export -f one
-printf '%s\n' "${ids[@]}" | xargs -P $J -I{} bash -c 'one {}' | sort | tee /verif/seeded/MATRIX.txt
+printf '%s\n' "${ids[@]}" | xargs -P $J -I{} bash -c 'one {}' | sort
+# the table is always regenerated from every seed's meta.json
+python3 - <<'EOF2' > /verif/seeded/MATRIX.txt
+import json, glob, os
+for d in sorted(glob.glob('/verif/seeded/*/meta.json')):
+    m = json.load(open(d)); v = m.get('verdict_of_my_checks') or {}
+    print(os.path.basename(os.path.dirname(d)), m.get('property'), v.get('verdict') if isinstance(v, dict) else v)
+EOF2
